@@ -205,4 +205,106 @@ theorem parseArtEntries_encode (as : List ArtEntry) (h : ∀ a ∈ as, a.WF) :
     simp only
     rw [ih (fun x hx => h x (List.mem_cons_of_mem _ hx))]
 
+-- ---------------------------------------------------------------- news path, account record
+
+
+theorem newsPathDecodeItems_succ (d : Bytes) (n pos : Nat) (prev : Bytes) :
+    newsPathDecodeItems d (n + 1) pos prev =
+      (let rem := d.length - pos
+       if rem < 3 then
+         match newsPathDecodeItems d n pos [] with
+         | .ok is => .ok ([] :: is)
+         | r => r
+       else
+         let l := ((d.drop (pos + 2)).headD 0).toNat
+         if 3 + l ≤ rem then
+           let name := (d.drop (pos + 3)).take l
+           match newsPathDecodeItems d n (pos + 3 + l) name with
+           | .ok is => .ok (name :: is)
+           | r => r
+         else if pos + 3 + l > scanBufCap then .panic
+         else
+           match newsPathDecodeItems d n pos prev with
+           | .ok is => .ok (prev :: is)
+           | r => r) := rfl
+
+theorem newsPathDecodeItems_encode (items : List Bytes) (h : ∀ it ∈ items, it.length < 256)
+    (pre prev : Bytes) :
+    newsPathDecodeItems (pre ++ itemsEncode items) items.length pre.length prev = .ok items := by
+  induction items generalizing pre prev with
+  | nil => simp [newsPathDecodeItems]
+  | cons it items ih =>
+    have hit : it.length < 256 := h it (by simp)
+    rw [itemsEncode_cons, List.length_cons, newsPathDecodeItems_succ]
+    have hlen : (pre ++ ([0, 0, b8 it.length] ++ it ++ itemsEncode items)).length - pre.length
+        = 3 + it.length + (itemsEncode items).length := by simp; omega
+    have hd2 : (pre ++ ([0, 0, b8 it.length] ++ it ++ itemsEncode items)).drop (pre.length + 2)
+        = b8 it.length :: (it ++ itemsEncode items) := by
+      rw [List.drop_append]
+      simp
+    have hd3 : (pre ++ ([0, 0, b8 it.length] ++ it ++ itemsEncode items)).drop (pre.length + 3)
+        = it ++ itemsEncode items := by
+      rw [List.drop_append]
+      simp
+    dsimp only
+    rw [hlen, hd2, hd3]
+    have hb : (b8 it.length).toNat = it.length := by simp; omega
+    simp only [List.headD_cons, hb]
+    have c1 : ¬ (3 + it.length + (itemsEncode items).length < 3) := by omega
+    have c2 : 3 + it.length ≤ 3 + it.length + (itemsEncode items).length := by omega
+    simp only [c1, c2, if_false, if_true]
+    have htake : (it ++ itemsEncode items).take it.length = it := by simp
+    rw [htake]
+    have hpre : pre ++ ([0, 0, b8 it.length] ++ it ++ itemsEncode items)
+        = (pre ++ [0, 0, b8 it.length] ++ it) ++ itemsEncode items := by simp
+    have hpl : pre.length + 3 + it.length = (pre ++ [0, 0, b8 it.length] ++ it).length := by simp; omega
+    rw [hpre, hpl, ih (fun x hx => h x (by simp [hx]))]
+
+/-- `DecodeNewsPath` on an encoded news path (same item layout as file paths) yields the items. -/
+theorem newsPathDecode_encode (items : List Bytes) (h : ∀ it ∈ items, it.length < 256) (hn : items.length < 65536) :
+    newsPathDecode (pathEncode items) = .ok items := by
+  unfold newsPathDecode
+  rw [pathEncode_eq]
+  have hl : (be16 items.length ++ itemsEncode items).length = 2 + (itemsEncode items).length := by simp
+  have c1 : ¬ ((be16 items.length ++ itemsEncode items).length = 0) := by omega
+  have c2 : ¬ ((be16 items.length ++ itemsEncode items).length < 2) := by omega
+  simp only [c1, c2, if_false]
+  rw [rd16_be16_append]
+  have : items.length % 65536 = items.length := by omega
+  rw [this]
+  have hd : (be16 items.length ++ itemsEncode items).drop 2 = itemsEncode items := by simp [be16]
+  rw [hd]
+  have := newsPathDecodeItems_encode items h [] []
+  simpa using this
+
+/-- Account record: the field count prefix equals the number of fields and the fields parse back. -/
+theorem AccountRec.fields_parse (a : AccountRec) (h : ∀ f ∈ a.fields, f.Scannable) (hn : a.fields.length < 65536) :
+    rd16 a.encode = a.fields.length ∧ parseFields a.fields.length (a.encode.drop 2) = .ok a.fields := by
+  unfold AccountRec.encode
+  refine ⟨by rw [rd16_be16_append]; omega, ?_⟩
+  rw [drop2_be16]
+  have := parseFields_encode a.fields h []
+  simpa using this
+
+theorem obfuscate_involutive (b : Bytes) : obfuscate (obfuscate b) = b := by
+  unfold obfuscate
+  rw [List.map_map]
+  have : ((fun x : UInt8 => 255 - x) ∘ fun x => 255 - x) = id := by
+    funext x; simp only [Function.comp, id]
+    apply UInt8.toNat_inj.mp
+    have := x.toNat_lt
+    simp [UInt8.toNat_sub]; omega
+  rw [this, List.map_id]
+
+theorem AccountRec.roundtrip (a : AccountRec) (h1 : a.name.length < 65536) (h2 : a.login.length < 65536) (h3 : a.access.length < 65536) :
+    rd16 a.encode = a.fields.length ∧ parseFields a.fields.length (a.encode.drop 2) = .ok a.fields := by
+  apply AccountRec.fields_parse
+  · intro f hf
+    unfold AccountRec.fields at hf
+    have ho : (obfuscate a.login).length = a.login.length := by simp [obfuscate]
+    cases hp : a.hasPassword <;> simp [hp] at hf
+    · rcases hf with rfl | rfl | rfl <;> simp [Field.Scannable, Field.WF, *]
+    · rcases hf with rfl | rfl | rfl | rfl <;> simp [Field.Scannable, Field.WF, *]
+  · unfold AccountRec.fields; split <;> simp
+
 end Mobius
